@@ -22,13 +22,16 @@ fn spec_limit(table: &[(usize, f32)], d: usize) -> Option<f32> {
     best.map(|x| x.1)
 }
 
-fn check_table<const N: usize>() {
+fn check_table<const N: usize>() { check_table_via::<N>(false) }
+
+/// `builder`: the table is configured through the by-value builder constraints(), otherwise through add_constraints()
+fn check_table_via<const N: usize>(builder: bool) {
     let mut table = [(0usize, 0.0f32); N];
     for i in 0..N {
         table[i] = (kani::any(), any_limit());
     }
     let mut c = SpatioTemporalConstraints::default();
-    c.add_constraints(table.to_vec());
+    if builder { c = c.constraints(&table); } else { c.add_constraints(table.to_vec()); }
     let d: usize = kani::any();
     let dist: f32 = kani::any();
     kani::assume(dist >= 0.0);
@@ -92,5 +95,37 @@ fn c20_constraints_second_call_keeps_first() {
     let r = c.validate(g, dist);
     kani::cover!(r, "reach/c20_constraints_second_call_keeps_first");
     assert!(r == (dist <= l1), "C20/constraints.repeated_gap_keeps_first_limit: a gap configured twice keeps its first limit");
+    core::mem::forget(c);
+}
+
+//@H props=C20 kind=bounded tier=quick stubs=no fn=SpatioTemporalConstraints::constraints,SpatioTemporalConstraints::validate bound="builder slice of length 2, gaps/limits/probe fully symbolic"
+//@H clause: a table configured through the by-value builder constraints() answers validate like the specification lookup (order of the entries irrelevant, first limit wins for a repeated gap)
+#[kani::proof]
+#[kani::unwind(6)]
+fn c20_constraints_builder_len2() { check_table_via::<2>(true); }
+
+//@H props=C20 kind=bounded tier=quick stubs=no fn=SpatioTemporalConstraints::constraints,SpatioTemporalConstraints::validate bound="builder slice of length 3, gaps/limits/probe fully symbolic" timeout=600
+//@H clause: a table configured through the by-value builder constraints() answers validate like the specification lookup
+#[kani::proof]
+#[kani::unwind(7)]
+fn c20_constraints_builder_len3() { check_table_via::<3>(true); }
+
+//@H props=C20 kind=bounded tier=quick stubs=no fn=SpatioTemporalConstraints::constraints,SpatioTemporalConstraints::validate bound="two chained builder calls of length 1 each, gaps/limits/probe fully symbolic" timeout=600
+//@H clause: chained builder calls accumulate into one table: validate answers like the specification lookup over all entries in the order written
+#[kani::proof]
+#[kani::unwind(6)]
+fn c20_constraints_builder_chained() {
+    let table = [(kani::any::<usize>(), any_limit()), (kani::any::<usize>(), any_limit())];
+    let c = SpatioTemporalConstraints::default().constraints(&table[..1]).constraints(&table[1..]);
+    let d: usize = kani::any();
+    let dist: f32 = kani::any();
+    kani::assume(dist >= 0.0);
+    let r = c.validate(d, dist);
+    kani::cover!(r, "reach/constraints chained admitted");
+    kani::cover!(!r, "reach/constraints chained rejected");
+    match spec_limit(&table, d) {
+        None => assert!(r, "C20/constraints.no_limit_admits: with no limit configured for a gap >= d every distance is admitted"),
+        Some(lim) => assert!(r == (dist <= lim), "C20/constraints.limit_of_smallest_gap_not_below_d: admitted exactly when dist <= the limit of the smallest configured gap >= d (first limit wins for a repeated gap)"),
+    }
     core::mem::forget(c);
 }
